@@ -983,3 +983,7 @@ PROPS["C08"]["outside"] = ("at the appender level: that the failing append RETUR
 
 # c11_date::* ({d(%x)} with a symbolic directive letter through From<Piece> for Chunk and chrono's StrftimeItems): 25 min
 # without an answer (two-way searchers over the heap-built format string) - not registered; the module and its hook stay.
+PROPS["C08"]["level_text"] += (" At the appender level: after a rotation that closed the writer but left the active file in place, the next appends keep "
+                               "every acknowledged record in both open modes (the file content equals the record stream after every append).")
+PROPS["C08"]["level_note"] = ("Trusted: Kani/CBMC/CaDiCaL, E3/E4. Roller level: failing step and crash point symbolic. Appender level: the failed roll is an instance "
+                              "(the harness policy does not report it), the last roll decision and the open mode are symbolic.")
